@@ -180,6 +180,69 @@ fn inject(rng: &mut Rng, p: &Project, tree: &mut BTreeMap<String, String>, kind:
             tree.insert(f.clone(), t);
             Some(Injected { file: f, kind: kind.into(), stage: 4 })
         }
+        "unknown_fragment_target" => {
+            // a fragment whose type condition names no type; preferably in a file without operations
+            let mut cands: Vec<(String, usize)> = Vec::new();
+            for f in &op_files {
+                let has_op = tree[f].split('\n').any(|l| {
+                    let t = l.trim_start();
+                    t.starts_with("query ") || t.starts_with("mutation ") || t.starts_with("subscription ") || t == "query {"
+                });
+                for (li, l) in tree[f].split('\n').enumerate() {
+                    let t = l.trim_start();
+                    if t.starts_with("fragment ") && t.contains(" on ") && t.trim_end().ends_with('{') {
+                        cands.push((f.clone(), li));
+                        if !has_op {
+                            // fragment-only files three times as likely
+                            cands.push((f.clone(), li));
+                            cands.push((f.clone(), li));
+                        }
+                    }
+                }
+            }
+            if cands.is_empty() {
+                return None;
+            }
+            let (f, li) = rng.pick(&cands).clone();
+            let mut lines: Vec<String> = tree[&f].split('\n').map(String::from).collect();
+            let l = &lines[li];
+            let i = l.find(" on ")?;
+            let rest = &l[i + 4..];
+            let j = rest.find([' ', '{']).unwrap_or(rest.len());
+            lines[li] = format!("{} on ZzNoSuchType{}", &l[..i], &rest[j..]);
+            tree.insert(f.clone(), lines.join("\n"));
+            Some(Injected { file: f, kind: kind.into(), stage: 4 })
+        }
+        "unknown_field_nested" => {
+            // an unknown field deep inside an operation: below a line that opens a nested selection set
+            let mut cands: Vec<(String, usize, String)> = Vec::new();
+            for f in &op_files {
+                let lines: Vec<&str> = tree[f].split('\n').collect();
+                let mut in_op = false;
+                for (li, l) in lines.iter().enumerate() {
+                    if !in_op {
+                        in_op = is_def_open(l) && !l.starts_with([' ', '\t']);
+                        continue;
+                    }
+                    if l.starts_with('}') {
+                        in_op = false;
+                        continue;
+                    }
+                    if l.starts_with([' ', '\t']) && l.trim_end().ends_with('{') && !l.trim_start().starts_with("...") {
+                        let indent: String = l.chars().take_while(|c| *c == ' ' || *c == '\t').collect();
+                        cands.push((f.clone(), li, indent));
+                    }
+                }
+            }
+            if cands.is_empty() {
+                return None;
+            }
+            let (f, li, indent) = rng.pick(&cands).clone();
+            let mut lines: Vec<String> = tree[&f].split('\n').map(String::from).collect();
+            lines.insert(li + 1, format!("{indent}{indent}zzUnknownField"));
+            tree.insert(f.clone(), lines.join("\n"));
+            Some(Injected { file: f, kind: kind.into(), stage: 4 })
+        }
         "directive_cycle" => {
             // two directive definitions that use each other on their arguments, and a third one
             // outside the cycle that uses a member of it: rejected by `check` (schema stage)
@@ -187,6 +250,10 @@ fn inject(rng: &mut Rng, p: &Project, tree: &mut BTreeMap<String, String>, kind:
                 return None;
             }
             let f = rng.pick(&schema_files).clone();
+            // (names of their own per injection: a second injection must not redefine them)
+            if tree.values().any(|t| t.contains("@zzPing")) {
+                return None;
+            }
             let t = format!(
                 "{}\ndirective @zzPing(a: Int @zzPong) on ARGUMENT_DEFINITION\ndirective @zzPong(b: Int @zzPing) on ARGUMENT_DEFINITION\ndirective @zzUser(c: Int @zzPing) on ARGUMENT_DEFINITION\n",
                 tree[&f].trim_end()
@@ -304,6 +371,8 @@ const VIOLATION_KINDS: &[&str] = &[
     "unknown_fragment",
     "unknown_field_in_imported_fragment",
     "unknown_field_in_fragment",
+    "unknown_fragment_target",
+    "unknown_field_nested",
     "unknown_type",
     "directive_cycle",
     "dup_operation",
@@ -1598,7 +1667,7 @@ fn drive_c17(sc: &E2Scenario, rep: &mut RunReport) {
                 let wrote_before = rc.trace.iter().any(|t| t.name == "write" && t.injected.is_none());
                 rep.probe(if wrote_before { "crash_after_first_write" } else { "crash_before_first_write" });
                 let (r3, after3) = rn.on_tree(cmds, "json", sc.hash_seeds[1 % sc.hash_seeds.len()], Some(sc.readdir_seeds[1]), &[]);
-                if r3.exit != g.exit || r3.stdout != g.stdout || after3 != gtree {
+                if r3.exit != g.exit || r3.stdout != g.stdout || !covers(&gtree, &after3) {
                     rep.violate(
                         &["C17", "C18"],
                         "C17.3-crash-rerun-differs",
@@ -1609,6 +1678,13 @@ fn drive_c17(sc: &E2Scenario, rep: &mut RunReport) {
         }
     }
     rep.events += rn.runs;
+}
+
+/// Every file of the fault-free result is there with its bytes.  Extra files are allowed: what an
+/// interrupted run left behind (a partial output, a temporary file) need not be cleaned up by a
+/// later run - no statement says so - but nothing generated may differ.
+fn covers(golden: &Tree, after: &Tree) -> bool {
+    golden.iter().all(|(p, b)| after.get(p) == Some(b))
 }
 
 fn classify(trace_name: &str) -> &'static str {
@@ -1710,7 +1786,7 @@ fn drive_c18f(sc: &E2Scenario, rep: &mut RunReport) {
                 }
             }
             let (r2, after2) = rn.on_tree(cmds, "json", h, rd, &[]);
-            if r2.exit != 0 || after2 != gtree || r2.stdout != g.stdout {
+            if r2.exit != 0 || !covers(&gtree, &after2) || r2.stdout != g.stdout {
                 rep.violate(&["C17", "C18"], "C17.3-crash-rerun-differs", format!("{what}: clean re-run after the crash: exit {} differing {:?}", r2.exit, changed_paths(&gtree, &after2)));
             }
             rep.probe("crash_then_rerun");
@@ -1794,6 +1870,13 @@ fn drive_c18f(sc: &E2Scenario, rep: &mut RunReport) {
                             );
                         }
                     }
+                    // nothing is created anywhere else: a failed run may leave an output incomplete,
+                    // but not litter the project (temporary files are removed when the rename fails)
+                    for c in &changed {
+                        if !glisted.contains(c) {
+                            rep.violate(&["C18"], "C18.F-stray-file", format!("{what}: exit 1 and {c}, which is not an output of the project, was created or changed"));
+                        }
+                    }
                     // ... and conversely every file that is completely on disk is announced: "generate
                     // writes exactly the files it lists" (partial files are not demanded to be listed -
                     // the statement does not promise atomic output)
@@ -1807,6 +1890,45 @@ fn drive_c18f(sc: &E2Scenario, rep: &mut RunReport) {
                         }
                     }
                     rep.probe("output_fault_reported");
+                }
+            }
+        }
+    }
+    // An output path that is occupied by a directory (left by something else): no fault is injected,
+    // the kernel itself refuses the write.
+    let mut ro = Rng::new(sc.faults.sample_seed ^ 0x0cc);
+    if sc.faults.pinned.is_empty() && !glisted.is_empty() && ro.chance(1, 3) {
+        let victims: Vec<&String> = glisted.iter().collect();
+        let victim = (*ro.pick(&victims)).clone();
+        let mut t = tree0.clone();
+        t.insert(format!("{victim}/.keep"), Vec::new());
+        sandbox::reset_tree(&t);
+        let (r, after) = rn.on_tree(cmds, "json", h, rd, &[]);
+        rep.fault("output_path_is_a_directory");
+        let what = format!("a directory sits at the output path {victim}");
+        if r.trapped() {
+            rep.violate(&["C18", "C08"], &format!("trap@{}", r.panic_site()), format!("{what}: exit {} {}", r.exit, tail(&r.stderr_str())));
+        } else if r.exit == 0 {
+            rep.violate(&["C18"], "C18.F-success-after-failed-write:occupied", format!("{what}: exit 0"));
+        } else if r.exit != 1 {
+            rep.violate(&["C18"], "C18.1-exit-status", format!("{what}: exit status {}", r.exit));
+        } else {
+            match parse_output("json", &r) {
+                Err(e) => rep.violate(&["C18"], "C18.2-json-malformed", format!("{what}: {e}")),
+                Ok(p) => {
+                    let listed: BTreeSet<String> = p.listed.iter().cloned().collect();
+                    for l in &listed {
+                        if after.get(l) != gtree.get(l) || !glisted.contains(l) {
+                            rep.violate(&["C18"], "C18.F-listed-incomplete", format!("{what}: {l} is announced as generated but is not the complete file"));
+                        }
+                    }
+                    for c in changed_paths(&t, &after) {
+                        if !glisted.contains(&c) {
+                            rep.violate(&["C18"], "C18.F-stray-file", format!("{what}: exit 1 and {c}, which is not an output of the project, was created or changed"));
+                        } else if !listed.contains(&c) && after.get(&c).is_some() && after.get(&c) == gtree.get(&c) {
+                            rep.violate(&["C18"], "C18.F-complete-file-not-listed", format!("{what}: {c} was written completely but is not listed"));
+                        }
+                    }
                 }
             }
         }
